@@ -566,7 +566,7 @@ impl SyncResponder {
             return Ok(length);
         }
 
-        let (commands, command_data, next_send) = self.get_commands(provider)?;
+        let (commands, command_data, next_send, resume) = self.get_commands(provider)?;
 
         let message = SyncResponseMessage::SyncResponse {
             session_id: self.session_id()?,
@@ -590,6 +590,7 @@ impl SyncResponder {
             .checked_add(1)
             .assume("message_index overflow")?;
         self.next_send = next_send;
+        self.apply_resume(resume)?;
         Ok(total_length)
     }
 
@@ -617,7 +618,7 @@ impl SyncResponder {
             }
         };
         self.to_send = Self::find_needed_segments(&self.has, storage, buffers)?;
-        let (commands, command_data, next_send) = self.get_commands(provider)?;
+        let (commands, command_data, next_send, resume) = self.get_commands(provider)?;
         let mut length = 0;
         if !commands.is_empty() {
             let message = SyncType::Push {
@@ -645,6 +646,7 @@ impl SyncResponder {
                 .checked_add(1)
                 .assume("message_index increment overflow")?;
             self.next_send = next_send;
+            self.apply_resume(resume)?;
             length = total_length;
         }
         Ok(length)
@@ -658,6 +660,7 @@ impl SyncResponder {
             Vec<CommandMeta, COMMAND_RESPONSE_MAX>,
             Vec<u8, MAX_SYNC_MESSAGE_SIZE>,
             usize,
+            Option<(usize, Location)>,
         ),
         SyncError,
     > {
@@ -675,6 +678,9 @@ impl SyncResponder {
         let mut commands: Vec<CommandMeta, COMMAND_RESPONSE_MAX> = Vec::new();
         let mut command_data: Vec<u8, MAX_SYNC_MESSAGE_SIZE> = Vec::new();
         let mut index = self.next_send;
+        // Mid-segment resume point, applied by the caller only once the
+        // message has been copied into its buffer.
+        let mut resume = None;
         for i in self.next_send..self.to_send.len() {
             if commands.is_full() {
                 break;
@@ -736,15 +742,22 @@ impl SyncResponder {
                     .max_cut
                     .checked_add(sent as u64)
                     .assume("max_cut + sent mustn't overflow")?;
-                *self.to_send.get_mut(i).assume("send index in bounds")? =
-                    Location::new(location.segment, resume_max_cut);
+                resume = Some((i, Location::new(location.segment, resume_max_cut)));
                 index = i;
                 break;
             }
 
             index = i.checked_add(1).assume("index + 1 mustn't overflow")?;
         }
-        Ok((commands, command_data, index))
+        Ok((commands, command_data, index, resume))
+    }
+
+    /// Record where the next response resumes inside a partly sent segment.
+    fn apply_resume(&mut self, resume: Option<(usize, Location)>) -> Result<(), SyncError> {
+        if let Some((i, location)) = resume {
+            *self.to_send.get_mut(i).assume("send index in bounds")? = location;
+        }
+        Ok(())
     }
 
     fn session_id(&self) -> Result<u128, SyncError> {
